@@ -212,7 +212,7 @@ class Dtype:
             try:
                 # This will only succeed for powers of two from -127 to 127.
                 e8m0 = bitstring.Bits(e8m0mxfp=self._scale)
-            except ValueError:
+            except (ValueError, OverflowError):
                 scale_str = f', scale={self._scale}'
             else:
                 power_of_two = e8m0.uint - 127
